@@ -938,7 +938,7 @@ func propsOf(m nbt.RawMessage) ([][2]string, error) {
 // first appearance; the property names of a block must be the same for all its states) - and back is
 // the id readStatesPalette returns for the palette entry.  Two states have the same key exactly when
 // they have the same name and the same properties.  Fails loudly on any shape it does not understand.
-func genRegistry(o *hx.Out, pal []save.BlockState, back []level.BlocksState) {
+func genRegistry(o *hx.Out, pal []save.BlockState, back []level.BlocksState, bioKeys []string, bioBack []int) {
 	type blk struct {
 		idx    int
 		names  []string
@@ -999,6 +999,21 @@ func genRegistry(o *hx.Out, pal []save.BlockState, back []level.BlocksState) {
 			sep = ""
 		}
 		fmt.Fprintf(&sb, "(%d,%d)%s\n", b.idx<<20+off, int(back[i]), sep)
+	}
+	sb.WriteString("].\n\n")
+	fmt.Fprintf(&sb, "Definition bio_count : N := %d.\n", len(bioKeys))
+	sb.WriteString("(* row i: (the name of biome i as a number: 1 then its bytes, base 256; the id the name is read back as) *)\n")
+	sb.WriteString("Definition bio_rows : list (N * N) := [\n")
+	for i, k := range bioKeys {
+		if bioBack[i] < 0 {
+			o.Fail("C13.registry.biome", "biome %d: its own name is not read back", i)
+			return
+		}
+		sep := ";"
+		if i == len(bioKeys)-1 {
+			sep = ""
+		}
+		fmt.Fprintf(&sb, "(%s,%d)%s\n", k, bioBack[i], sep)
 	}
 	sb.WriteString("].\n")
 	root := os.Getenv("VERIF_ROOT")
@@ -1073,7 +1088,19 @@ func registry(o *hx.Out) bool {
 		}
 		o.Eval("registry.sweep", i > 0, fmt.Sprintf("state %d", i))
 	}
-	genRegistry(o, pal, back)
+	// biomes: Type.MarshalText / Type.UnmarshalText (writeBiomesPalette / readBiomesPalette)
+	bioKeys, bioBack := make([]string, nBiomes), make([]int, nBiomes)
+	for i := 0; i < nBiomes; i++ {
+		name, _ := biome.Type(i).MarshalText()
+		t := biome.Type(-1)
+		if err := t.UnmarshalText(name); err != nil {
+			t = -1
+		}
+		// the name as a number: a leading 1 then the bytes, base 256 (injective)
+		bioKeys[i] = "0x01" + hex.EncodeToString(name)
+		bioBack[i] = int(t)
+	}
+	genRegistry(o, pal, back, bioKeys, bioBack)
 	for i := 0; i < nBiomes; i++ {
 		name, _ := biome.Type(i).MarshalText()
 		var t biome.Type
@@ -1222,7 +1249,11 @@ func main() {
 				s.Sections[1].Y = s.Sections[0].Y
 			}
 		}
-		fromSaveCase(o, "fromsave.malformed", s)
+		_, why := fromSaveCaseE(o, "fromsave.malformed", s)
+		if i%6 == 0 && !strings.Contains(why, "heightmap") {
+			// a height map with the wrong number of longs is reported as an error (since fix: see meta)
+			o.Fail("C13.save.from-heightmap-size", "OCEAN_FLOOR with 3 longs: ChunkFromSave gave %q, an error is expected", why)
+		}
 	}
 
 	// --- the counter
